@@ -248,7 +248,7 @@ func c15Trans(c *Ctx, pre *Node, st Step, res *Result, post *State) ([]Violation
 func checkC15(e *RunEnv) *CheckResult {
 	spec := &Spec{
 		Seeds:      corpusSeeds(),
-		Depth: e.depth(2, 3),
+		Depth: e.depth(2, 4),
 		Steps:      corpusSteps,
 		CheckTrans: c15Trans,
 	}
